@@ -2,7 +2,7 @@
 import numpy as np
 
 from sim.core import Violation, Inconclusive, InjectedAbort, RandomProxy, patched_random
-from sim.models import gen_mdp_spec, MDPView, make_mdp, sibling_mdp_spec, rotated_probability_spec, update_model_in_place
+from sim.models import rare_catastrophe_spec, gen_mdp_spec, MDPView, make_mdp, sibling_mdp_spec, rotated_probability_spec, update_model_in_place
 from sim.refsolve import optimal_values, evaluate, game_W
 from sim.heur import gen_heuristic, build_heuristic, is_monotone
 from sim.ctx import RunCtx, make_scheduler, gen_sched
@@ -52,6 +52,12 @@ def gen_case(rng, tier, idx):
         cfg = dict(heur=gen_heuristic(rng), eps=(10.0 if rng.random() < 0.6 else 1e-9) if rng.random() < 0.04 else rng.choice((1e-2, 1e-3, 1e-5)), rao=rng.random() < 0.6, seed=rng.choice((0, 1, 9, None)),
                    reuse=rng.randrange(1000) if rng.random() < 0.2 else None, alias=rng.choice(('fresh', 'fresh', 'cached', 'shared', 'tuple')), cap_exact=rng.random() < 0.25,
                    model_update=rng.random() < 0.1)
+    if not tie_cfg and rng.random() < 0.01:
+        # a 1e-9 branch into a pit that costs 1e10 to leave: a successor can be nearly impossible and still decide the optimum
+        spec = rare_catastrophe_spec(rng)
+        cfg['model_update'] = False
+        cfg['reuse'] = None
+        cfg['eps'] = rng.choice((1e-2, 1e-3))
     plain = idx % 4 == 0
     sched = gen_sched(rng, ('P',) if plain else ('P', 'U', 'R', 'R'), budget_choices=(20, 100, 400, 2000), cap=300000)
     return dict(spec=spec, cfg=cfg, sched=sched)
